@@ -297,7 +297,22 @@ func (w *World) decoderLayer() map[*ssa.Function]map[*ssa.Function]bool {
 	for changed := true; changed; {
 		changed = false
 		for _, fn := range w.SrcFuncs() {
-			if fn.Parent() != nil || token.IsExported(fn.Name()) || fn.Signature.Recv() != nil || len(callers[fn]) == 0 {
+			// a function literal works for whoever wrote it: the store closure handed to
+			// a shared element loop (`put := func(j int, item interface{}) {…}`) belongs
+			// to the reader that builds it
+			if par := fn.Parent(); par != nil {
+				for o := range owners[par] {
+					if owners[fn] == nil {
+						owners[fn] = map[*ssa.Function]bool{}
+					}
+					if !owners[fn][o] {
+						owners[fn][o] = true
+						changed = true
+					}
+				}
+				continue
+			}
+			if token.IsExported(fn.Name()) || fn.Signature.Recv() != nil || len(callers[fn]) == 0 {
 				continue
 			}
 			all := true
